@@ -1,7 +1,7 @@
 (* RbcStep3: local progress facts (C14 totality): r-ready goes to everybody, thresholds trigger r-ready and dbar,
    every first r-ready from a peer is counted. *)
 From Coq Require Import ZArith List Bool Lia.
-From LT Require Import RbcModel RbcLemmas RbcStep RbcStep2.
+From LT Require Import RbcModel RbcLemmas RbcStep.
 Import ListNotations.
 Local Open Scope Z_scope.
 
